@@ -23,6 +23,8 @@ def run(tier, deadline):
     cfg2 = [(5, 3, 2, 1)] if tier == "quick" else [(6, 4, 6, 1), (5, 3, 2, 2)]      # (depth, handler values, calls, threads)
     for d2, nh2, nc2, mt2 in cfg2:
         jobs += [["bfs2", str(d2), str(nh2), str(nc2), str(mt2), str(i), str(nsh)] for i in range(nsh)]
+    d3, nh3, mt3 = (4, 3, 2) if tier == "quick" else (5, 4, 2)       # the library's own abort and ignore handlers as registered values
+    jobs += [["bfs3", str(d3), str(nh3), str(mt3), str(i), str(nsh)] for i in range(nsh)]
     jobs += [["lin", "2", "1"], ["lin", "2" if tier == "quick" else "3", "2"]]
     viol = {}; internal = []; samples = []
     st = {"states": 0, "transitions": 0, "histories": 0, "schedules": 0, "lin_states": 0, "lin_op_sets": 0, "max_points": 0}
@@ -40,7 +42,7 @@ def run(tier, deadline):
                 o = json.loads(ln)
                 if o["t"] == "viol": viol.setdefault(o["sig"], [0, o["case"], o.get("text", "")])[0] += 1
                 elif o["t"] == "sample" and len(samples) < 8: samples.append(o["hist"].strip())
-                elif o["t"] == "stat" and o["mode"] in ("bfs", "bfs2"):
+                elif o["t"] == "stat" and o["mode"] in ("bfs", "bfs2", "bfs3"):
                     st["states"] += o["states"]; st["transitions"] += o["transitions"]; st["histories"] += o["histories"]
                 elif o["t"] == "stat":
                     st["schedules"] += o["schedules"]; st["lin_states"] += o["states"]; st["lin_op_sets"] += o["op_sets"]; st["max_points"] = max(st["max_points"], o["max_points"])
@@ -58,7 +60,7 @@ def run(tier, deadline):
            "bfs": {"depth": depth, "handler_values": nh, "max_threads": 3, "model_states_x_lib_static_hash": st["states"], "histories_executed": st["histories"]},
            "linearizability": {"threads": 2, "ops_per_thread": [1, 2], "op_sets": st["lin_op_sets"], "schedules": st["schedules"], "preemption_bound": 2 if tier == "quick" else 3, "max_scheduling_points": st["max_points"]},
            "evaluations": st["histories"] + st["schedules"], "distinct_nontrivial": st["states"] + st["lin_states"],
-           "rule": f"second BFS alphabet: handlers NULL, HJ (a handler that leaves through longjmp), H1 (thorough: H2), op call(f) = one of 2 (thorough: 6) calls that violate nothing (wcsnatcmp_s with folding, sprintf_s; thorough: wcsicmp_s, wcsnorm_s, strcpy_s, memset_s) which must fail nothing, invoke nothing and change no registration; configurations (depth, handler values, calls, threads) = {cfg2}; histories that differ in who has left a handler by longjmp or made which call are kept apart when de-duplicating. " + "BFS: every (thread, op) extension of every history that reached a new (model state, hash of the library's static bytes) pair, each history executed from the pristine library image on fresh real threads; oracle per step: identity of the handler that ran, thread, code, return of registrations vs the 15-line model (child inheritance left open). Access level: every interleaving of 2 threads at static-access granularity up to the preemption bound; oracle: a model-accepted sequential order consistent with real time exists",
+           "rule": f"third BFS alphabet: handler values NULL, abort_handler_s (pre-empted by the harness so that its invocation is observed), H1 (thorough: ignore_handler_s named explicitly), depth {d3}, up to {mt3} threads. second BFS alphabet: handlers NULL, HJ (a handler that leaves through longjmp), H1 (thorough: H2), op call(f) = one of 2 (thorough: 6) calls that violate nothing (wcsnatcmp_s with folding, sprintf_s; thorough: wcsicmp_s, wcsnorm_s, strcpy_s, memset_s) which must fail nothing, invoke nothing and change no registration; configurations (depth, handler values, calls, threads) = {cfg2}; histories that differ in who has left a handler by longjmp or made which call are kept apart when de-duplicating. " + "BFS: every (thread, op) extension of every history that reached a new (model state, hash of the library's static bytes) pair, each history executed from the pristine library image on fresh real threads; oracle per step: identity of the handler that ran, thread, code, return of registrations vs the 15-line model (child inheritance left open). Access level: every interleaving of 2 threads at static-access granularity up to the preemption bound; oracle: a model-accepted sequential order consistent with real time exists",
            "timed_out_jobs": len(timed_out)}
     assumptions = ["the executable's ignore_handler_s pre-empts the library's default handler (symbol interposition), so the default is observable",
                    "pristine 'never registered' state is recreated by restoring the library's .data/.bss image and using fresh threads (fresh TLS)"]
